@@ -43,7 +43,7 @@ def wParse (pfx depth cs idx cc key : String) : Option HDWallet :=
 
 def failStr : Fail → String | .panic => "panic" | .outside => "outside"
 def perrStr : ParseErr → String | .length => "length" | .pfx => "prefix" | .pubkey => "pubkey" | .checksum => "checksum"
-def werrStr : WifErr → String | .b58 => "b58" | .short => "short" | .long => "long" | .checksum => "checksum"
+def werrStr : WifErr → String | .b58 => "b58" | .short => "short" | .long => "long" | .checksum => "checksum" | .flag => "flag"
 def berrStr : Bip39.Err → String
   | .entropyLen => "entropylen" | .invalidMnemonic => "invalid" | .wordNotFound => "notfound" | .checksum => "checksum"
 
@@ -139,6 +139,19 @@ def step (_ : Unit) (toks : List String) : Unit × String :=
     | some m, some p => match Bip39.newSeedWithErrorChecking C0 m p with
       | .ok e => ((), s!"ok {Hex.encode e}") | .error x => ((), s!"err {berrStr x}")
     | _, _ => bad
+  | ["typed", ss, first, second, single, gen, askp, save] =>
+    match Hex.decode ss, Hex.decode first, Hex.decode second with
+    | some ss, some first, some second =>
+      match bool? single, bool? gen, bool? askp, bool? save with
+      | some single, some gen, some askp, some save =>
+        -- only `secretSeed` of the configuration enters `getpassTyped`
+        let cfg : WalletKeys.Config := { waltype := 4, hdpath := [], bip39wrds := 0, usescrypt := 0, hdsubs := 1, keycnt := 1, testnet := false, litecoin := false, atype := .p2kh, secretSeed := ss }
+        match WalletKeys.getpassTyped cfg { first := first, second := second, singleAsk := single, genMode := gen, ask4pass := askp, save := save } with
+        | .error .empty => ((), "err empty")
+        | .error .mismatch => ((), "err mismatch")
+        | .ok (out, sv) => ((), s!"ok {Hex.encode out} {match sv with | some f => Hex.encode f | none => "none"}")
+      | _, _, _, _ => bad
+    | _, _, _ => bad
   | ["wallet", ty, hp, b39, scr, subs, cnt, tn, ltc, aty, ss, file, so] =>
     match ty.toNat?, Hex.decode hp, int? b39, scr.toNat?, subs.toNat?, cnt.toNat?, bool? tn, bool? ltc with
     | some ty, some hp, some b39, some scr, some subs, some cnt, some tn, some ltc =>
